@@ -6,6 +6,7 @@ import (
 	"math"
 	"strconv"
 	"strings"
+	"sync/atomic"
 
 	"github.com/ipld/go-ipld-prime/datamodel"
 	"github.com/ipld/go-ipld-prime/node/basicnode"
@@ -527,6 +528,33 @@ func runC01(c *core.Ctx) error {
 		done += k
 	}
 	c01Typed(c, c.Rand.Fork(), c.Pick(1500, 100000))
+	// every integer of small magnitude assigned as a list element, a map value and a top-level value reads back as itself
+	// (exhaustive over a range where an implementation might keep a table of preallocated values)
+	{
+		lim, bad := int64(c.Pick(70000, 1<<21)), 0
+		for i := -lim; i <= lim && bad < 5; i++ {
+			nbl := basicnode.Prototype.List.NewBuilder()
+			la, _ := nbl.BeginList(1)
+			la.AssembleValue().AssignInt(i)
+			la.Finish()
+			nbm := basicnode.Prototype.Map.NewBuilder()
+			ma, _ := nbm.BeginMap(1)
+			va, _ := ma.AssembleEntry("k")
+			va.AssignInt(i)
+			ma.Finish()
+			nba := basicnode.Prototype.Any.NewBuilder()
+			nba.AssignInt(i)
+			e1, _ := nbl.Build().LookupByIndex(0)
+			e2, _ := nbm.Build().LookupByString("k")
+			for shape, n := range map[string]datamodel.Node{"list element": e1, "map value": e2, "top": nba.Build(), "NewInt": basicnode.NewInt(i)} {
+				if got, err := n.AsInt(); err != nil || got != i {
+					c.Fail("C01/read-differs-from-assembled", core.Replay{Kind: "oracle", Case: fmt.Sprintf("c01.small-int %d as %s", i, shape), Impl: fmt.Sprint(got, err), Expected: fmt.Sprint(i)})
+					bad++
+				}
+			}
+		}
+		c.Dist("small-ints-exhaustive")
+	}
 	return nil
 }
 
@@ -582,12 +610,26 @@ func c01Typed(c *core.Ctx, r *core.Rand, n int) {
 	cfg.TupleLooseOptional = 0 // known finding C08/bindnode-tuple-absent-before-present-field
 	for i := 0; i < n; i++ {
 		sc, err := genSchemaCase(r, cfg)
+		if i%40 == 7 {
+			// a wide struct, beyond one machine word of per-field bookkeeping (required fields up to the last one)
+			w := &core.SType{K: "struct", Name: fmt.Sprintf("C01W%d", atomic.AddUint64(&c12WideCounter, 1)), SRepr: "map"}
+			for f := 0; f < []int{63, 64, 65, 70, 129}[r.Intn(5)]; f++ {
+				fn := fmt.Sprintf("f%d", f)
+				w.Fields = append(w.Fields, core.SField{Name: fn, Rename: fn, T: &core.SType{K: []string{"int", "str", "bool"}[r.Intn(3)], Name: fmt.Sprintf("C01W%d", atomic.AddUint64(&c12WideCounter, 1))}})
+			}
+			sc, err = newSchemaCase(w)
+			c.Dist("typed:wide-struct")
+		}
 		if err != nil {
 			continue
 		}
 		tv := core.GenInhabitant(sc.T, r, cfg, false)
 		ob := feed(sc, "type", "direct", core.TypeInput(tv), nil)
 		if ob.Outcome != "accepted" {
+			if len(sc.T.Fields) > 60 {
+				c.Fail("C01/typed-value-not-built", core.Replay{Kind: "oracle", Case: "c01.typed type " + sc.Eng.Name() + " " + truncateStr(sc.Ty, 300) + " VAL " + truncateStr(tv.Term(), 300), Impl: ob.Outcome + " " + ob.Detail, Expected: "built",
+					Detail: "an inhabitant of a wide struct (every field supplied, by a legal call sequence) is refused"})
+			}
 			continue // acceptance is C09's business
 		}
 		tn, ok := ob.Node.(schema.TypedNode)
